@@ -1,7 +1,9 @@
 #!/usr/bin/env python3
 """Developer tool: confirm a seeded change delivered by a sub-agent and run the checks against it.
 
-usage: tools_seed.py <PROP> <n> [--props C01,C05]   (reads /tmp/seed/<PROP>.out/change<n>.diff, demo<n>.py)
+usage: tools_seed.py <PROP> <n> [--props C01,C05] [--base /tmp/seed2 --tag r2]
+       (reads <base>/<PROP>.out/change<n>.diff, demo<n>.py; default base /tmp/seed)
+       With --scratch the checks run against a scratch copy (VERIF_REPO) instead of patching /repo.
 
 1. confirms in a scratch worktree (outside /repo and /verif): the diff applies, the test suite
    passes with it, the demo fails with it and passes without it;
@@ -29,13 +31,17 @@ def main():
     extra = []
     if '--props' in sys.argv:
         extra = sys.argv[sys.argv.index('--props') + 1].split(',')
-    src = '/tmp/seed/%s.out' % prop
+    base = sys.argv[sys.argv.index('--base') + 1] if '--base' in sys.argv else '/tmp/seed'
+    tag = sys.argv[sys.argv.index('--tag') + 1] if '--tag' in sys.argv else ''
+    scratch_mode = '--scratch' in sys.argv
+    src = '%s/%s.out' % (base, prop)
     diff = os.path.join(src, 'change%s.diff' % n)
     demo = os.path.join(src, 'demo%s.py' % n)
-    wt = '/tmp/seed/confirm-%s-%s' % (prop, n)
+    wt = '%s/confirm-%s-%s' % (base, prop, n)
     sh('git -C /repo worktree remove --force %s' % wt)
     rc, out = sh('git -C /repo worktree add --detach %s HEAD' % wt)
-    meta = {'property': prop, 'seed': '%s-%s' % (prop, n), 'confirmed': False}
+    sid = '%s-%s%s' % (prop, (tag + '-') if tag else '', n)
+    meta = {'property': prop, 'seed': sid, 'confirmed': False}
     try:
         rc0, out0 = sh('%s %s' % (PY, demo), cwd=wt)
         rc, out = sh('git apply %s' % diff, cwd=wt)
@@ -51,14 +57,36 @@ def main():
         meta['confirmed'] = rc0 == 0 and rct == 0 and rc1 != 0
     finally:
         sh('git -C /repo worktree remove --force %s' % wt)
-    dest = '/verif/seeded/%s-%s' % (prop, n)
+    dest = '/verif/seeded/%s' % sid
     os.makedirs(dest, exist_ok=True)
     shutil.copy(diff, os.path.join(dest, 'patch.diff'))
     shutil.copy(demo, os.path.join(dest, 'demo.py'))
     notes = os.path.join(src, 'notes.md')
     if os.path.exists(notes):
         shutil.copy(notes, os.path.join(dest, 'agent_notes.md'))
-    if meta['confirmed']:
+    if meta['confirmed'] and scratch_mode:
+        sc = '/var/tmp/seed-scratch-%s' % sid
+        sh('rm -rf %s; mkdir -p %s; git -C /repo archive HEAD | tar -x -C %s' % (sc, sc, sc))
+        rc, out = sh('git apply %s' % diff, cwd=sc)
+        if rc != 0:
+            rc, out = sh('patch -p1 -s -i %s' % diff, cwd=sc)
+        results = {}
+        try:
+            for p in [prop] + extra:
+                t0 = time.time()
+                rc, out = sh('VERIF_REPO=%s VERIF_SELFTEST=1 ./check %s --tier quick' % (sc, p), cwd='/verif')
+                lines = out.strip().splitlines()
+                results[p] = {'exit': rc, 'wall_s': round(time.time() - t0, 1),
+                              'violation_lines': [l[:300] for l in lines if l.startswith('VIOLATION')][:8],
+                              'undecided': [l[:200] for l in lines if l.startswith('UNDECIDED')][:8],
+                              'summary': [l for l in lines if 'tier=' in l][:1]}
+        finally:
+            sh('rm -rf %s' % sc)
+        meta['checks'] = results
+        meta['detected'] = any(r['exit'] == 1 for r in results.values())
+        meta['detected_by_deductive'] = any('obligation=' in v for r in results.values() for v in r['violation_lines'])
+        meta['detected_by_bounded'] = any('contract=' in v or 'class=' in v for r in results.values() for v in r['violation_lines'])
+    elif meta['confirmed']:
         # run the checks against the change
         rc, out = sh('git -C /repo status --porcelain')
         if out.strip():
